@@ -170,6 +170,7 @@ _SIGS = {
     "shim_set_number_value": (c_double, [P, c_double]),
     "shim_set_bool_value": (c_int, [P, c_int]),
     "shim_array_foreach_count": (c_int, [P, c_void_p, c_size_t]),
+    "shim_big_sort": (c_int, [c_long, c_int, c_int, c_int, c_char_p, c_size_t]),
 }
 
 
